@@ -41,6 +41,10 @@ type SeqName struct {
 	NAAAA    int      `json:"naaaa"`
 	TTLs     []uint32 `json:"ttls"` // per record, cyclically; may mix 0 and positive
 	CnameTTL uint32   `json:"cname_ttl,omitempty"`
+	// NSvc: additional ServiceMode records of the "https"/"target" shapes,
+	// listed before the priority-1 record in DEscending priority order (the
+	// resolver has to order them; the cached RRset must not be reordered in place).
+	NSvc int `json:"nsvc,omitempty"`
 }
 
 type nameState struct {
@@ -84,6 +88,12 @@ func buildZone(names []SeqName, st []nameState, fault string) *simdoh.Zone {
 			tgt := ""
 			if n.Shape == "target" {
 				tgt = names[n.Other].Host
+			}
+			if n.Shape != "nodata" {
+				for x := n.NSvc; x >= 1; x-- {
+					z.RRs = append(z.RRs, simdoh.RR{Name: n.Host, Type: simdoh.TypeHTTPS, TTL: ttl(), Target: tgt,
+						Svc: &simdoh.Svc{Priority: uint16(1 + x), ALPN: []string{"h2", "p" + fmt.Sprint(x), "v" + fmt.Sprint(ver)}, ECH: []byte{0xEC, byte(ver >> 8), byte(ver), byte(i), byte(x)}}})
+				}
 			}
 			z.RRs = append(z.RRs, simdoh.RR{Name: n.Host, Type: simdoh.TypeHTTPS, TTL: ttl(), Target: tgt,
 				Svc: &simdoh.Svc{Priority: 1, ALPN: []string{"h3", "h2", "v" + fmt.Sprint(ver)}, ECH: []byte{0xEC, byte(ver >> 8), byte(ver), byte(i)}}})
@@ -432,6 +442,9 @@ func genNames(r *rand.Rand, n int, conc bool) []SeqName {
 			shapes = append(shapes, "target", "alias")
 		}
 		s.Shape = core.Pick(r, shapes)
+		if (s.Shape == "https" || s.Shape == "target") && core.Chance(r, 1, 2) {
+			s.NSvc = core.Between(r, 1, 4)
+		}
 		if s.Shape == "target" || s.Shape == "alias" {
 			s.Other = (i + 1 + r.IntN(n-1)) % n
 		}
